@@ -3,6 +3,8 @@
 import json, os, subprocess
 CLAIMED = {
  # id: (level text, level_note, design_ref)
+ "C07": ("Proof (WP over go/ssa + SMT, bit-vector mode: Go's wraparound, shifts and byte truncation are exact) for all inputs of the leaf codecs in lib/numberenc (uint16/32/64, zig-zag int64, float64 bit pattern, bool: length, prefix preservation, big-endian value equation, decoder = inverse equation, zig-zag round-trip lemmas), and of the float column encoder's scheme selection in lib/compress (NaN/Inf anywhere forces the NaN-safe scheme, 'all same' means bit-identical, the same-value block elides only the all-zero bit pattern, the output is never touched after a Gorilla error).",
+         "Trusted: unsafe byte<->float64 slice re-views (lengths only), snappy/zstd/simple8b/gorilla/MLF internals, sync.Pool. Not decided yet: integer/timestamp/string/bool column encoders, record and file codecs, WAL row codec.", "DESIGN.md §5 C07"),
  "C16": ("Proof (WP over go/ssa + SMT), for all catalogue states, of the listed contracts in meta: a new shard group is aligned to the policy's group duration, contains the timestamp, is clamped to MaxNanoTime+1 and gets a fresh id (counter +1); CreateShardGroup validates before it allocates and leaves every id counter unchanged on an error return; the database default policy exists after SetDefaultRetentionPolicy / DropRetentionPolicy; catalogue lookups (GetDatabase/RetentionPolicy) return live objects only; the shard-group sort order is the (effective end, start) strict order.",
          "Not decided: disjointness after ShardGroupDuration changes, createShards/CreateIndexGroup id ranges, uncontracted commands (~60 apply handlers), node/PtView maintenance. Truncate modelled by its defining property (largest multiple <= t).", "DESIGN.md §5 C16"),
  "C19": ("Proof (WP over go/ssa + SMT), for all requests/paths, that the authentication wrapper fails closed (the wrapped handler is reached with a non-nil, error-free user whenever authentication is required and an admin exists; bearer tokens are only verified against a non-empty shared secret; ParseCredentials returns only the two supported methods, which makes the no-return default branch unreachable), that AuthorizeDatabase is exactly per database, and that AuthorizeQuery checks every required privilege against the database the statement names and returns an error on any denial.",
